@@ -163,6 +163,9 @@ let () =
               (match unflatten (flatten regs.(reg r)) with
                | Ok m -> regs.(reg r) <- m; true
                | _ -> false)
+          | ["mf"; r; name] -> apply (reg r) (OMoveToFront (bytes_of_hex name))
+          | ["mb"; r; name] -> apply (reg r) (OMoveToBack (bytes_of_hex name))
+          | ["cn"; r; o; nw] -> apply (reg r) (OCopyName (bytes_of_hex o, bytes_of_hex nw))
           | ["um"; r; seed] ->
               let bytes = List.map int_of_byte (flatten regs.(reg r)) in
               let mb = List.map (fun i -> byte_tab.(i)) (mutate bytes (int_of_string seed)) in
